@@ -24,7 +24,7 @@ import sympy as sp
 
 from ..core import norm, calls_in, kwarg, AnalysisError, assigns_to, cmp_canon
 from ..flow import Reaching
-from ..symx import SymEval, Path, PyStub, Opaque
+from ..symx import SymEval, Path, PyStub, Opaque, WouldRaise
 
 NL = 'atomman/core/nlist.pyx'
 NLP = 'atomman/core/NeighborList.py'
@@ -283,54 +283,82 @@ def insertion(ctx):
     g = _sym(grow[0].value, ['maxneighbors', 'deltasize'])
     ctx.ob('INSERTION', loc, 'row width is capacity+1 initially and after growth (width_new = (maxneighbors + growth) + 1), growth >= 1',
            sp.expand(w0 - (M + 1)) == 0 and sp.expand(w1 - (M + g + 1)) == 0 and sp.simplify(g - D) == 0, 'initial %s, grown %s, capacity += %s' % (w0, w1, g), node=al[1])
-    cp = [l for l in _loops(sweep) if any(isinstance(s, ast.Assign) and norm(s.targets[0]).startswith('newneighbors[') for s in l.body)]
-    ok = False
-    det = ''
-    if cp:
-        inner = cp[-1]
-        det = norm(inner.iter)
+    # the pair-insertion block, interpreted on small concrete tables (finite table logic: which slot gets which id)
+    import numpy as np
+    stores = [s_ for s_ in ast.walk(sweep) if isinstance(s_, ast.Assign) and isinstance(s_.targets[0], ast.Subscript) and norm(s_.targets[0].value) in ('neighbors', 'newneighbors')]
+    ctx.need(len(stores) >= 2, 'nlist: stores into the neighbour table not found')
+    mem = [c for c in calls_in(sweep) if norm(c.func) == 'dmag2_c']
+    ctx.need(len(mem) == 1, 'nlist: membership test (dmag2_c) not found')
+
+    def chain(n_):
+        out = []
+        while n_ is not None and n_ is not sweep:
+            out.append(n_)
+            n_ = getattr(n_, '_parent', None)
+        return out
+    common = None
+    for st_ in stores + [s_ for s_ in ast.walk(sweep) if isinstance(s_, ast.AugAssign) and norm(s_.target).startswith('neighbors[')]:
+        ch = [x for x in chain(st_) if isinstance(x, ast.stmt)]
+        common = ch if common is None else [x for x in common if any(x is y for y in ch)]
+    ctx.need(bool(common), 'nlist: the statement holding the pair insertion is not recognisable')
+    # smallest enclosing statement whose only inputs are the two atom ids, the table and its size parameters
+    allowed = {'uindex', 'vindex', 'neighbors', 'maxneighbors', 'deltasize', 'natoms', 'initialsize', 'np', 'range', 'max', 'min', 'len', 'int'}
+    block = None
+    for cand in common:
+        loaded = {n_.id for n_ in ast.walk(cand) if isinstance(n_, ast.Name) and isinstance(n_.ctx, ast.Load)}
+        stored = {n_.id for n_ in ast.walk(cand) if isinstance(n_, ast.Name) and isinstance(n_.ctx, ast.Store)}
+        if (loaded - stored) <= allowed and {'uindex', 'vindex'} <= loaded:
+            block = cand
+            break
+    ctx.need(block is not None and not any(norm(c.func) == 'dmag2_c' for c in calls_in(block)), 'nlist: the pair-insertion block (inputs: the two atom ids, the table, its size parameters) is not recognisable')
+
+    def run_pairs(pairs, natoms, cap, delta):
+        tab = np.empty((natoms, cap + 1), dtype=object)
+        tab[...] = sp.Integer(-7)                      # np.empty: unspecified contents
+        for i in range(natoms):
+            tab[i, 0] = sp.Integer(0)
+        env = {'neighbors': tab, 'maxneighbors': sp.Integer(cap), 'deltasize': sp.Integer(delta), 'natoms': sp.Integer(natoms), 'initialsize': sp.Integer(cap)}
+        ev = SymEval({'np': 'numpy'})
+        ev.np_override = {'numpy.empty': lambda shape, **k: _unspec(shape), 'numpy.zeros': lambda shape, **k: _unspec(shape, 0)}
+        for u, v in pairs:
+            env.update({'uindex': sp.Integer(u), 'vindex': sp.Integer(v)})
+            q = [x for x in ev.block([block], [Path(dict(env))]) if x.done is None]
+            if len(q) != 1:
+                raise Opaque('pair insertion does not reduce to one path for (%d, %d)' % (u, v))
+            env = q[0].env
+        return env
+
+    def _unspec(shape, fill=-7):
+        out = np.empty(tuple(int(x) for x in shape), dtype=object)
+        out[...] = sp.Integer(fill)
+        return out
+    scen = [('ascending arrivals, growth on both rows', [(0, 1), (0, 2), (0, 3), (1, 2), (0, 4), (1, 3), (1, 4)], 5, 2, 1),
+            ('descending arrivals (every insertion shifts), repeats in both orders', [(4, 3), (4, 2), (4, 1), (4, 0), (3, 4), (4, 3), (2, 0), (0, 2), (3, 0), (1, 0), (0, 1)], 5, 1, 2),
+            ('only the second atom\'s row overflows', [(0, 1), (2, 1), (3, 1), (4, 1), (0, 4)], 5, 1, 1),
+            ('interleaved arrivals, larger growth step, self pair', [(2, 5), (2, 0), (2, 3), (5, 0), (2, 2), (2, 1), (2, 4), (0, 3), (3, 5), (5, 2), (1, 5)], 6, 2, 3)]
+    for tag, pairs, natoms, cap, delta in scen:
+        want = {i: set() for i in range(natoms)}
+        for u, v in pairs:
+            if u != v:
+                want[u].add(v)
+                want[v].add(u)
         try:
-            b = _sym(inner.iter.args[0], ['maxneighbors', 'deltasize'])
-            ok = sp.expand(b - w0) == 0 and len(inner.iter.args) == 1
-        except Exception:
-            ok = False
-        rowloop = inner._parent
-        ok = ok and isinstance(rowloop, ast.For) and norm(rowloop.iter).replace(' ', '') in ('range(neighbors.shape[0])', 'range(natoms)')
-        st = [s for s in inner.body if isinstance(s, ast.Assign)][0]
-        ok = ok and norm(st.value) == norm(st.targets[0]).replace('newneighbors', 'neighbors')
-    ctx.ob('INSERTION', loc, 'growth copies every old column (count and all neighbour slots) of every row', ok, det, node=cp[-1] if cp else sweep)
-    gi = grow[0]._parent
-    cond = norm(gi.test).replace(' ', '') if isinstance(gi, ast.If) else ''
-    ok = cond in ('neighbors[uindex,0]>maxneighborsorneighbors[vindex,0]>maxneighbors', 'neighbors[vindex,0]>maxneighborsorneighbors[uindex,0]>maxneighbors')
-    ctx.ob('INSERTION', loc, 'storage grows when either row\'s new count exceeds the capacity', ok, cond, node=gi)
-    incs = [s for s in ast.walk(sweep) if isinstance(s, ast.AugAssign) and norm(s.target) in ('neighbors[uindex, 0]', 'neighbors[vindex, 0]') and norm(s.value) == '1' and isinstance(s.op, ast.Add)]
-    ctx.ob('INSERTION', loc, 'both coordination counts are incremented, before the capacity test', len(incs) == 2 and all(s.lineno < gi.lineno for s in incs), node=sweep)
-    stores = [s for s in ast.walk(sweep) if isinstance(s, ast.Assign) and norm(s.targets[0]) in ('neighbors[uindex, uj]', 'neighbors[vindex, vj]')]
-    want = {'neighbors[uindex, uj]': 'vindex', 'neighbors[vindex, vj]': 'uindex'}
-    ok = len(stores) == 2 and all(norm(s.value) == want[norm(s.targets[0])] for s in stores) and all(s.lineno > gi.lineno for s in stores)
-    ctx.ob('INSERTION', loc, 'each atom is stored in the other\'s row (symmetric), after any growth', ok, node=sweep)
-    # search loops
-    for me, other, slot in (('uindex', 'vindex', 'uj'), ('vindex', 'uindex', 'vj')):
-        ls = [l for l in _loops(sweep, 'j') if norm(l.iter).replace(' ', '') == 'range(1,neighbors[%s,0]+1)' % me]
-        ok = len(ls) == 1
-        first_greater = dup = False
-        if ok:
-            for s in ast.walk(ls[0]):
-                if isinstance(s, ast.If):
-                    cc = cmp_canon(s.test)
-                    if cc == ('neighbors[%s, j]' % me, '>', other) and any(norm(x) == '%s = j' % slot for x in s.body) and any(isinstance(x, ast.Break) for x in s.body):
-                        first_greater = True
-                    if cc and cc[1] == '==' and set((cc[0], cc[2])) == {'neighbors[%s, j]' % me, other} and any(norm(x) == 'new = False' for x in s.body):
-                        dup = True
-        dflt = [s for s in ast.walk(sweep) if isinstance(s, ast.If) and norm(s.test).replace(' ', '') == '%s==-1' % slot and any(norm(x).replace(' ', '') == '%s=neighbors[%s,0]+1' % (slot, me) for x in s.body)]
-        ctx.ob('INSERTION', loc, 'the insertion point in %s\'s row is the first entry greater than the new id, else the end (keeps rows ascending)' % me, ok and first_greater and len(dflt) == 1, node=ls[0] if ls else sweep, key='slot ' + me)
-        if me == 'uindex':
-            ctx.ob('INSERTION', loc, 'a pair already present is not inserted again (duplicate test on the first row)', dup, node=ls[0] if ls else sweep)
-        sh = [l for l in _loops(sweep, 'j') if norm(l.iter).replace(' ', '') == 'range(neighbors[%s,0],%s-1,-1)' % (me, slot) or norm(l.iter).replace(' ', '') == 'range(neighbors[%s,0],%s,-1)' % (me, slot)]
-        ok = len(sh) == 1 and any(norm(s).replace(' ', '') == 'neighbors[%s,j]=neighbors[%s,j-1]' % (me, me) for s in sh[0].body)
-        ctx.ob('INSERTION', loc, 'entries above the insertion point in %s\'s row are shifted up by one, from the top down' % me, ok, node=sh[0] if sh else sweep, key='shift ' + me)
-    nw = [s for s in ast.walk(sweep) if isinstance(s, ast.If) and norm(s.test) == 'new']
-    ctx.ob('INSERTION', loc, 'insertion happens only for new pairs', len(nw) == 1 and all(any(s is x for x in ast.walk(nw[0])) for s in stores), node=sweep)
+            env = run_pairs(pairs, natoms, cap, delta)
+            tab = env['neighbors']
+            bad = []
+            for i in range(natoms):
+                cnt = int(tab[i, 0])
+                row = [int(x) for x in tab[i, 1:cnt + 1]]
+                if row != sorted(want[i]):
+                    bad.append('row %d holds %s, expected %s' % (i, row, sorted(want[i])))
+            need = max(len(v_) for v_ in want.values())
+            if int(env['maxneighbors']) < need or tab.shape[1] != int(env['maxneighbors']) + 1:
+                bad.append('capacity %s with %d columns for a largest list of %d' % (env['maxneighbors'], tab.shape[1], need))
+            ok, det = not bad, '; '.join(bad[:3])
+        except (Opaque, WouldRaise, IndexError, TypeError) as e:
+            ok, det = False, 'insertion cannot be carried out: %s' % e
+        ctx.ob('INSERTION', loc, '%s: every row ends as the ascending, duplicate-free list of exactly the partners of that atom (both directions stored, earlier entries kept through growth, capacity + 1 columns)' % tag, ok, det,
+               node=block, key='pairs ' + tag)
     init = [l for l in _loops(fn) if any(norm(s).replace(' ', '') == 'neighbors[i,0]=0' for s in l.body) and norm(l.iter).replace(' ', '') == 'range(natoms)']
     ctx.ob('INSERTION', loc, 'all coordination counts start at zero', len(init) == 1, node=fn)
     mi = assigns_to(fn, 'maxneighbors')
